@@ -285,11 +285,18 @@ Definition hoist_key (c : config) (prop : node) (span : sp) (a : acc) (p : pstat
   | _ => (prop, a, p)
   end.
 
+(** [a[f()] += x] reads [a] before it calls [f]: when the key goes into a temporary, the object goes first. *)
+Definition key_hoisted (prop : node) : bool :=
+  match prop with
+  | Node (K KComputed _ _) [e] => negb (is_ident e || is_lit e)
+  | _ => false
+  end.
+
 Definition hoist_member (c : config) (t : node) (span : sp) (a : acc) (p : pstate) : option (node * acc * pstate) :=
   match t with
   | Node (K KMember lo hi) [obj; prop] =>
       let '(obj', a1, p1) :=
-        if is_ident obj || is_kind KThis obj then (obj, a, p)
+        if (is_ident obj || is_kind KThis obj) && negb (key_hoisted prop) then (obj, a, p)
         else
           let '(id, a1, p1) := get_temporal c obj span IKExpr a p in
           (match id with Some i => i | None => obj end, a1, p1) in
@@ -652,6 +659,12 @@ Definition oc_call_from_base (c : config) (base : node) (optional : bool) (s : o
             | Some nid =>
                 match oc_assigns s1 with
                 | _ :: _ =>
+                    (* [super.b?.(x)]: b is found on the parent prototype and called on [this] *)
+                    if is_kind KSuperProp (if is_kind KParen callee then peel_parens callee else callee)
+                    then (Some (mk KCall DUMMY [cx; mk_member DUMMY nid (mk_ident_name DUMMY "call");
+                                                Node Lst (mk_arg (mk KThis DUMMY []) :: args); targs]),
+                          oc_set_new_ident nid s1)
+                    else
                     (Some (mk KCall DUMMY [cx; nid; Node Lst args; targs]), oc_set_new_ident nid s1)
                 | [] => (None, s1)
                 end
